@@ -153,10 +153,12 @@ class Harness:
                 h.received[path] = copy.deepcopy(kw)
                 h.order.append(path)
                 for c in hard:
+                    # the hard-coded defaults are passed as the very same (nested) objects on every start, like
+                    # module-level DEFAULTS constants in an application: starting must not modify them
                     if h.naming_of(c) == "alias":  # no type given: derived from the alias
-                        self.add_component(nodes[c]["alias"], **copy.deepcopy(nodes[c]["hard_kwargs"]))
+                        self.add_component(nodes[c]["alias"], **nodes[c]["hard_kwargs"])
                     else:
-                        self.add_component(nodes[c]["alias"], h.type_arg(c), **copy.deepcopy(nodes[c]["hard_kwargs"]), **h.extra(c))
+                        self.add_component(nodes[c]["alias"], h.type_arg(c), **nodes[c]["hard_kwargs"], **h.extra(c))
 
             async def prepare(self: Any) -> None:
                 add_resource(("prepare", path), "default", types=[h.marker_type(path, "prepare")])
@@ -301,6 +303,8 @@ async def scenario(case: dict[str, Any], out: dict[str, Any]) -> None:
         if len(V) < 6 and not any(v["key"] == key for v in V):
             V.append({"key": key, "msg": msg, "witness": {**w, "tree": tree}})
 
+    pristine = copy.deepcopy(tree)  # the model works on a private copy of the logical tree
+    tree = copy.deepcopy(tree)  # the harness passes this copy's hard-coded dict objects to every start
     nodes = tree["nodes"]
     results: dict[str, Any] = {}
     for mode in case["modes"]:
@@ -314,7 +318,9 @@ async def scenario(case: dict[str, Any], out: dict[str, Any]) -> None:
         if r["error"] is not None:
             bad("config-start-failed", f"start_component failed under naming mode {mode}: {describe_exc(r['error'])}", mode=mode, config=repr(cfg)[:1500])
             continue
-        exp = h.expected_kwargs()
+        exp = Harness(pristine, mode, case["mix_seed"]).expected_kwargs()
+        if canon({p: n["hard_kwargs"] for p, n in nodes.items()}) != canon({p: n["hard_kwargs"] for p, n in pristine["nodes"].items()}):
+            bad("config-hardcoded-defaults-mutated", f"start_component modified the (nested) default values hard-coded in add_component() calls (mode {mode})", mode=mode)
         got = {p: {k: v for k, v in kw.items() if k != "verif_path"} for p, kw in h.received.items()}
         for p in nodes:
             inc("nodes_kwargs_compared")
@@ -323,7 +329,7 @@ async def scenario(case: dict[str, Any], out: dict[str, Any]) -> None:
                 bad("config-child-missing" if kind == "hard" else "config-only-child-missing",
                     f"component {p!r} ({kind}) was never constructed under naming mode {mode}", mode=mode, config=repr(cfg)[:1500])
             elif canon(got[p]) != canon(exp[p]):
-                bad("config-kwargs", f"component {p!r} was constructed with {got[p]!r}; hard-coded {nodes[p]['hard_kwargs']!r} merged with external "
+                bad("config-kwargs", f"component {p!r} was constructed with {got[p]!r}; hard-coded {pristine['nodes'][p]['hard_kwargs']!r} merged with external "
                                      f"{nodes[p]['ext']!r} gives {exp[p]!r}", mode=mode)
         extra = set(got) - set(nodes)
         if extra:
